@@ -21,7 +21,7 @@ package combinator
 //@   requires p != nil
 //@   include  parsley.Parser.Parse
 //@   ensures  [once;C01,C02] ncalls() == 1 && callarg[*parsley.Context](1, 1) == ctx && same(callarg[data.IntMap](1, 2), lrc) && callarg[parsley.Pos](1, 3) == pos
-//@   ensures  [E6;C01] n != nil && same(cp, callres[data.IntSet](1, 1)) && same(err, callres[parsley.Error](1, 2))
+//@   ensures  [E6;C01,C06] n != nil && same(cp, callres[data.IntSet](1, 1)) && same(err, callres[parsley.Error](1, 2))
 //@   ensures  [E6-empty;C01] callres[parsley.Node](1, 0) == nil ==> same(n, ast.EmptyNode(pos))
 //@   ensures  [E6-has-empty;C01,C04] callres[parsley.Node](1, 0) != nil ==> typeis[ast.NodeList](n) && (same(n.(ast.NodeList)[len(n.(ast.NodeList))-1], ast.EmptyNode(pos)) || exists k int :: 0 <= k && k < len(n.(ast.NodeList)) && same(n.(ast.NodeList)[k], ast.EmptyNode(pos)))
 
@@ -308,7 +308,7 @@ package combinator
 //@ -- constructors and setters of *Sequence: they establish / keep the object invariant [fns]
 //@ -- (function values stored in a Sequence are treated as pure: their captured state is frozen at
 //@ --  construction -- assumption "closure purity", see evidence)
-//@ props C01
+//@ props C01,C04
 
 //@ func Seq(token string, parserLookUp func(int) parsley.Parser, lenCheck func(int) bool) (r *Sequence)
 //@   requires parserLookUp != nil && lenCheck != nil && shapeOf(parserLookUp, lenCheck)
